@@ -172,5 +172,7 @@ open Ezpz
 #check @solveWithPriority_unionMany_converged       -- k groups
 #check @union_unequal_rounds_loop_partial            -- groups needing DIFFERENT numbers of rounds: blocks within 2·(1/2)^rounds of the solo results
 #check @extra_rounds_close
+#check @solveWithPriority_unionMany_unequal_partial  -- ... k groups, public entry point, no relation between the round counts
+#check @freeRun_unionMany
 #check @solveWithPriority_unionMany_any_order_exact -- any interleaving and numbering
 #check @step_test_is_global                        -- the one global effect (F17)
